@@ -1025,10 +1025,10 @@ def run_level(chunk, ctx):
         state = tup(state)
         sub = Ctx()
         mark = (len(out), set(seen_local))
-        try:
-            with budget.time_limit(60.0):
-                _expand_state(state, b, chunk["expand"], sub, out, seen_local, pidx)
-        except budget.WallTimeout:
+        _st, _val = budget.run_limited(lambda: _expand_state(state, b, chunk["expand"], sub, out, seen_local, pidx), 60.0)
+        if _st == "exc":
+            raise _val
+        if _st == "timeout":
             # deterministic verdict: redo this state with every library call under the line budget
             sub = Ctx()
             del out[mark[0]:]
